@@ -25,6 +25,7 @@ def run(ctx, rep):
     from . import C18
     sub = type(rep)(rep.prop)
     C03.r03c(ctx, sub)
+    C03.r03k(ctx, sub)
     C18.r18b(ctx, sub)
     rep.rule("R13f", "a collection at a slice boundary frees nothing the resumed run can reach: the markers trace every "
              "reference-carrying field of every cell kind and payload (C03's R03c, including the environment and stack saved in "
@@ -32,7 +33,7 @@ def run(ctx, rep):
              "collection is not an alias of a recycled cell. Uninterrupted short runs never collect between the two events.")
     k = 0
     for o in sub.obs:
-        o.key = o.key.replace("R03c", "R13f", 1).replace("R18b", "R13f", 1)
+        o.key = o.key.replace("R03c", "R13f", 1).replace("R03k", "R13f", 1).replace("R18b", "R13f", 1)
         o.rule = "R13f"
         rep.obs.append(o)
         k += 1
